@@ -491,3 +491,34 @@ Example C04_ex_differs_outside :
   cparse_at (CBytes (XConst (VInt 4))) [] [x01; x02] 0%N = Ok (VBytes [x01; x02], 2%Z).
 Proof. split; vm_compute; reflexivity. Qed.
 ''')
+
+
+PROPS['C19'] = dict(
+    title='C19 - KSY export describes the same byte layout the construct parses',
+    requires=['Ksy', 'RTFacts'],
+    prelude='Local Open Scope nat_scope.',
+    theorems=[
+        ('KsyFacts', 'ksy_emit_flat', 'For EVERY Struct of named flat members (any Int*/Float*, Bytes of constant size, Flag, VarInt, GreedyBytes, bytes Const, counted Array of Int*/Float*; any number, any order): the schema the exporter ladder produces is exactly one field per member, in declaration order, with the expected type / size / contents / repeat keys and no helper types.'),
+        ('KsyFacts', 'ksy_ids_in_declaration_order', 'The sequence lists the members in declaration order under the same identifiers.'),
+        ('KsyFacts', 'read_prim_format', 'The schema type of an Int*/Float* (uNle/sNbe/fNle...) read with its Kaitai meaning is what FormatField parses, for every width, signedness, byte order.'),
+        ('KsyFacts', 'ifield_flat', 'Every flat member: whatever the construct parses at any position, the schema field reads the same bytes to the same value (a constant to its bytes).'),
+        ('KsyFacts', 'ksy_describes_flat_struct', 'For every such Struct and EVERY byte string it parses: reading the emitted schema succeeds and assigns every field the same identifier, the same byte extent and the same value as the construct.'),
+        ('KsyFacts', 'ex_flat_members', 'The hypothesis is satisfiable: a struct with every flat kind.'),
+    ],
+    examples='''
+Example C19_ex_flat :
+  let data := [x01; x02; x3f; xf8; x00; x00; x00; x00; x00; x00; x41; x42; x05; x81; x01; x4d; x5a; xff; xfe; x00; x03; x09] in
+  exists sch, ksy_emit ex_flat = Some sch /\\
+    map (fun r => fst (fst r)) match ksy_interp sch [] data with Ok r => r | Err _ _ => [] end =
+    map (fun r => fst (fst r)) match ksy_layout ex_flat [] data with Ok r => r | Err _ _ => [] end /\\
+    length match ksy_layout ex_flat [] data with Ok r => r | Err _ _ => [] end = 8.
+Proof. eexists. split; [vm_compute; reflexivity|]. split; vm_compute; reflexivity. Qed.
+
+(* the ladder: a nested Struct becomes a helper type allocated by the id counter, registered after the types nested in it *)
+Example C19_ex_nested_types :
+  match ksy_emit (CStruct [CRenamed [x61] (CStruct [CRenamed [x62] (CStruct [CRenamed [x63] (CFormat Big FB)])]); CRenamed [x64] (CFormat Big FB)]) with
+  | Some (KSchema sq ts es) => map fst ts = [[x74; x79; x70; x65; x5f; x32]; [x74; x79; x70; x65; x5f; x31]] /\\ length sq = 2
+  | None => False
+  end.
+Proof. vm_compute. split; reflexivity. Qed.
+''')
